@@ -19,6 +19,7 @@ RULE = (
     "alias axes (far/tar) identical. W1: <=14 scores per class (Fractions are O(P*N)), classes: permutations, Gaussian, within-class "
     "ties without cross ties, lattices with cross ties (full AUC), single-sample classes; easy counts; 4 cfg; cuts on/off the k/N grid, "
     "within 1/N of 0 and 1, lower == upper. Non-trivial: P*N >= 2 and the AUC is not 0 or 1 or the interval is partial; distinct = hash of inputs."
+    ' Build-phase additions: FNR-over-FPR areas judged relative to their own size against the exact rational area; classes of easy samples only; two large sets per run (66-72 thousand samples, ties centred on power-of-two ranks) against the Mann-Whitney statistic counted by binary search.'
 )
 ASSUMPTIONS = ["finite scores", "0 <= lower <= upper <= 1", "partial AUC only without values shared between classes (as the property states)"]
 
